@@ -15,7 +15,7 @@ import traceback
 from .rustlex import ExtractError
 from . import verusrun
 
-ROOT = '/verif'
+ROOT = os.environ.get('VERIF_ROOT') or '/verif'
 REPO = os.environ.get('VERIF_REPO', '/repo')
 
 
